@@ -272,3 +272,37 @@ Theorem C03_init_from_sized : forall (HO : hops), cv_len32 HO ->
              ob_k ob = ob_k ob0 /\ created_store HO data bs ob.
 Proof. exact c03_init_from_sized. Qed.
 Print Assumptions C03_init_from_sized.
+
+(* ======== Gap audit for C12 (last sentence), composed with C03; proofs in Proofs/GapCopyCreated.v ========
+   These two theorems belong to C12 but cannot be stated in Props/C12.v: they use Proofs/FinalStore.v, which depends
+   through Proofs/HistOb.v on Props/C12.v.  The general theorems (any source content) are C12_gap_copy_sync /
+   C12_gap_copy_fsm / C12_gap_flip_flip in Props/C12.v. *)
+From BaoV Require Import Model.Sync Model.Fsm Spec.EncSpec Spec.NodeSpec Spec.HashAssm
+  Proofs.HistOb Proofs.FinalStore Proofs.GapCopyCreated.
+
+(* copying (sync or fsm) a store created by the crate for a blob - any of the four kinds - into an empty file, a
+   zeroed buffer or any not-longer store of either order gives exactly the store the crate creates for that blob
+   in the target's order: "converting or copying loses and invents nothing", byte for byte *)
+Theorem C12_gap_copy_created : forall (HO : hops), cv_len32 HO ->
+  forall (data : bytes HO) (bs : N) (from to : outboard HO), blen HO data <= 2 ^ 63 -> bs <= 10 ->
+  created_store HO data bs from ->
+  (ob_k to = PreIO \/ ob_k to = PostIO \/ ob_k to = PreMem \/ ob_k to = PostMem) ->
+  ob_tree to = mkTree (blen HO data) bs ->
+  blen HO (ob_data to) <= (sp_blocks (blen HO data) bs - 1) * 64 ->
+  ((ob_k to = PreMem \/ ob_k to = PostMem) -> blen HO (ob_data to) = (sp_blocks (blen HO data) bs - 1) * 64) ->
+  ob_root to = root_hash HO data ->
+  exists to', copy HO from to = Ok to' /\ copy_fsm HO from to = Ok to' /\
+    ob_k to' = ob_k to /\ created_store HO data bs to'.
+Proof. exact gap_copy_created. Qed.
+Print Assumptions C12_gap_copy_created.
+
+(* PostOrderMemOutboard::create(..).flip() is PreOrderMemOutboard::create(..) and back
+   (the two stores are the results of post_mem_create / pre_mem_create: C03_created_entry_points) *)
+Theorem C12_gap_flip_created : forall (HO : hops), cv_len32 HO ->
+  forall (data : bytes HO) (bs : N), blen HO data <= 2 ^ 63 -> bs <= 10 ->
+  flip HO (mkOb PostMem (root_hash HO data) (mkTree (blen HO data) bs) (spec_outboard HO true data bs))
+    = Ok (mkOb PreMem (root_hash HO data) (mkTree (blen HO data) bs) (spec_outboard HO false data bs)) /\
+  flip HO (mkOb PreMem (root_hash HO data) (mkTree (blen HO data) bs) (spec_outboard HO false data bs))
+    = Ok (mkOb PostMem (root_hash HO data) (mkTree (blen HO data) bs) (spec_outboard HO true data bs)).
+Proof. exact gap_flip_created. Qed.
+Print Assumptions C12_gap_flip_created.
